@@ -233,6 +233,9 @@ class AbsInt:
                     if lo_ == -INF or hi_ == INF:
                         self.clamp_type(st, p)       # whichever copy of the state meets the name first: its type bounds it
                 return ('lin', p, 0)
+        if k == 'incdec' and a[2].k == 'var' and path_of(a[2]) is not None:
+            # the value of x++ / x-- is x as it stands, of ++x / --x one more / less (the update itself is a separate effect)
+            return ('lin', path_of(a[2]), 0 if a[1] else (1 if a[0] == '++' else -1))
         if k == 'un' and a[0] == '-':
             v = self.lin(a[1], st)
             if v[0] == 'lin' and v[1] is None:
@@ -260,6 +263,25 @@ class AbsInt:
         if k == 'bin':
             op = a[0]
             l, r = self.lin(a[1], st), self.lin(a[2], st)
+            # the remainder formed without the % operator: q = x / c (truncating), x - c * q.  c * (x / c) lies between 0 and x,
+            # and the difference between -(c-1) and c-1 with the sign of x - whatever the range of x
+            if op == '/' and r[0] == 'lin' and r[1] is None and r[2] > 2 and l[0] == 'lin' and l[1] is not None and l[2] == 0:
+                return ('quot', l[1], r[2])
+            if op == '*':
+                for q_, c_ in ((l, r), (r, l)):
+                    if c_[0] == 'lin' and c_[1] is None and c_[2] > 0:
+                        if q_[0] == 'lin' and q_[1] is not None and q_[2] == 0 and q_[1] in self.defs:
+                            q_ = self.defs[q_[1]]
+                        if q_[0] == 'quot' and q_[2] == c_[2]:
+                            return ('qmul', q_[1], q_[2])
+            if op == '-' and l[0] == 'lin' and l[1] is not None and l[2] == 0:
+                q_ = r
+                if q_[0] == 'lin' and q_[1] is not None and q_[2] == 0 and q_[1] in self.defs:
+                    q_ = self.defs[q_[1]]
+                if q_[0] == 'qmul' and q_[1] == l[1]:
+                    lo_, hi_ = st.bounds(l[1])
+                    c_ = q_[2]
+                    return ('rem', 0 if lo_ >= 0 else -(c_ - 1), 0 if hi_ <= 0 else c_ - 1)
             if op in ('+', '-'):
                 if r[0] == 'lin' and r[1] is None:
                     kk = r[2] if op == '+' else -r[2]
@@ -351,6 +373,12 @@ class AbsInt:
         if v[0] == 'half':
             lo, hi = self.range_of(v[1], st)
             return (_tdiv(lo, 2) if lo > -INF else -INF), (_tdiv(hi, 2) if hi < INF else INF)
+        if v[0] == 'rem':
+            return v[1], v[2]
+        if v[0] in ('quot', 'qmul'):
+            lo, hi = st.bounds(v[1])
+            m_ = v[2] if v[0] == 'qmul' else 1
+            return (m_ * _tdiv(lo, v[2]) if lo > -INF else -INF), (m_ * _tdiv(hi, v[2]) if hi < INF else INF)
         return -INF, INF
 
     # -- assignments --------------------------------------------------------------------
@@ -389,7 +417,7 @@ class AbsInt:
             st.add(x, '0', hi)
         if lo > -INF:
             st.add('0', x, -lo)
-        if v[0] == 'diff':
+        if v[0] == 'diff' or (v[0] in ('quot', 'qmul') and v[1] != x):
             self.defs[x] = v
 
     # -- guards -------------------------------------------------------------------------
